@@ -106,7 +106,7 @@ impl Property for C22 {
 
     fn runs(&self, tier: Tier) -> u64 {
         match tier {
-            Tier::Quick => 11 * 60,
+            Tier::Quick => 11 * 240,
             Tier::Thorough => 11 * 3000,
         }
     }
